@@ -148,6 +148,35 @@ func (j *C17Job) Run(deadline time.Time) *runner.JobResult {
 		}
 		frontier = next
 	}
+	// batches: this job's first transaction together with every mutating transaction, in both
+	// orders, as ONE batch (one SQL transaction, prepared statements shared between the
+	// commands) on both backends from the job's start state
+	if alpha[j.First].Mutating {
+		for bi, b := range alpha {
+			if !b.Mutating || (!deadline.IsZero() && time.Now().After(deadline)) {
+				continue
+			}
+			for _, order := range [][2]int{{j.First, bi}, {bi, j.First}} {
+				runner.Trace(fmt.Sprintf("JOB %s batch [%s, %s]", j.Name(), alpha[order[0]].Label, alpha[order[1]].Label))
+				replay(sq, root.path)
+				replay(pg, root.path)
+				batch := [][]*t_aio.Command{alpha[order[0]].Cmds(), alpha[order[1]].Cmds()}
+				_, es := sq.Exec(batch)
+				batch = [][]*t_aio.Command{alpha[order[0]].Cmds(), alpha[order[1]].Cmds()}
+				_, ep := pg.Exec(batch)
+				res.Transitions++
+				res.Counters["batches_on_both_backends"]++
+				where := fmt.Sprintf("after %v, batch [%s, %s]", labelsOf(root.path), alpha[order[0]].Label, alpha[order[1]].Label)
+				if (es[0] != nil) != (ep[0] != nil) || (es[1] != nil) != (ep[1] != nil) {
+					viol("C17:batch-error-on-one-backend:"+kindsOf(alpha[order[0]])+"+"+kindsOf(alpha[order[1]]), "%s: sqlite errors %v %v, postgres errors %v %v", where, es[0], es[1], ep[0], ep[1])
+					continue
+				}
+				if ds, dp := NormText(sq.Dump()), NormText(pg.Dump()); ds != dp {
+					viol("C17:batch-tables-differ:"+kindsOf(alpha[order[0]])+"+"+kindsOf(alpha[order[1]]), "%s: the backends leave different tables\n--- sqlite:\n%s--- postgres:\n%s", where, ds, dp)
+				}
+			}
+		}
+	}
 	res.States, res.Executions = int64(len(seen)), res.Transitions
 	for k := range seen {
 		res.Outcomes = append(res.Outcomes, hashStr(k))
